@@ -93,6 +93,10 @@ def run(repo, rep):
     rep.clause("C15-e", "IFM block size arithmetic is axis-consistent")
     rep.clause("C15-g", "the Conv1D one-row block (halved accumulator partition) is taken only for a one-row OFM under a one-row kernel")
     rule_conv1d_halving(repo, rep)
+    rep.clause("C15-h", "the emitted block configuration is the one of the applied schedule (apply_schedule stores it in every pass)")
+    rep.clause("C15-i", "IFM block depth per IFM precision (function interpreted): only 16-bit IFMs use the 16-deep block")
+    rep.clause("C15-j", "parameter-named positional arguments of the block configuration search sit at their parameter's position")
+    rule_round8(repo, rep)
     rep.undecided("numerical bank arithmetic for all shapes on all six accelerators")
     rep.assume("bank counts, granules, bit widths and block extents are positive")
     from .shared import mirror_families, module_axis_lint
@@ -704,3 +708,44 @@ def rule_conv1d_halving(repo, rep):
     need = ("ofm_shape.height", "kernel.height", "ofm_ublock.height")
     rep.check(all(any(nm in str(norm(c)) for c in conjuncts(ifs[0].test)) for nm in need), "C15-g", site, "the one-row block (halved accumulators) needs OFM height 1, kernel height 1 and a 2-row micro-block",
               f"condition: {texts}: a one-row OFM under a taller kernel (3x3 VALID on 3 rows) gets AB_START 30 where a 2-row block needs 32 banks")
+
+
+def rule_round8(repo, rep):
+    """(h) the block configuration that is emitted (pass.block_config) is the one of the schedule finally applied: apply_schedule stores
+    `op_info.block_config` of the chosen schedule in the pass of every operator - every proposal overwrites the same field while the
+    search runs, so without it the pass keeps the block of the *last proposal*. (i) `_ifm_blockdepth` interpreted for 8 / 16 / 32-bit
+    IFMs: 16 bits are the only case with the 16-deep block. (j) positional arguments of find_block_config that are named like one of its
+    parameters sit at that parameter's position (lut_banks / scaled are adjacent ints / bools)."""
+    from ..absint import AObj, Interp
+    from .shared import swapped_argument_lint
+
+    sch = repo.mod("scheduler")
+    f = sch.func("Scheduler.apply_schedule")
+    site = "ethosu/vela/scheduler.py:Scheduler.apply_schedule"
+    loops = [l for l in ast.walk(f) if isinstance(l, ast.For) and str(norm(l.iter)) == "self.sched_ops"]
+    if not loops:
+        raise AnalysisError("apply_schedule: loop over the scheduled operators not found")
+    st = [a for a in loops[0].body if isinstance(a, ast.Assign) and str(norm(a.targets[0])).endswith(".parent_ps.block_config")]
+    ok = len(st) == 1 and "op_info.block_config" in str(norm(st[0].value)) and any(isinstance(a, ast.Assign) and str(norm(a.targets[0])) == "op_info" and "cost_map[" in str(norm(a.value)) and str(norm(a.value)).startswith("sched.") for a in loops[0].body)
+    rep.check(ok, "C15-h", site, "every operator's pass takes the block configuration of the applied schedule (`parent_ps.block_config = op_info.block_config..` with op_info = sched.cost_map[sched_op])",
+              "the pass keeps whatever the last proposal stored: a 1-row-stripe block found with the 1-D accumulator optimisation is emitted for the taller operation: 'block_config 2x50x64 does not fit' on the 256 / 512-MAC parts, silently different blocks elsewhere")
+    aa = repo.mod("architecture_allocator")
+    it = Interp(repo, aa, externs={"round_up": lambda i, a, k, n: -(-a[0] // a[1]) * a[1] if all(isinstance(x, int) for x in a) else None})
+    wrong = []
+    pts = 0
+    for bits in (8, 16, 32):
+        for depth in (1, 4, 8, 16, 17, 24, 32, 40, 64):
+            for pk in (False, True):
+                arch = AObj("arch", {"ifm_ublock": AObj("ub", {"depth": 8}, cls="Block")}, cls="ArchitectureFeatures")
+                shape = AObj("shape", {"depth": depth}, cls="Shape4D")
+                ps = [p_ for p_ in it.run("_ifm_blockdepth", lambda arch=arch, shape=shape, bits=bits, pk=pk: ([arch, shape, bits, pk], {})) if p_.kind == "return"]
+                if len(ps) != 1 or not isinstance(ps[0].value, int):
+                    raise AnalysisError(f"_ifm_blockdepth not evaluable for {bits} bits, depth {depth}: {[(p_.kind, p_.value) for p_ in ps][:2]}")
+                want = -(-min(depth, 16) // 4) * 4 if bits == 16 else -(-min(depth, 16 if pk else 32) // 8) * 8
+                pts += 1
+                if ps[0].value != want:
+                    wrong.append((bits, depth, pk, ps[0].value, want))
+    rep.check(not wrong, "C15-i", "ethosu/vela/architecture_allocator.py:_ifm_blockdepth", f"IFM block depth: 16-bit -> round_up(min(d, 16), 4); 8- and 32-bit -> round_up(min(d, 16 | 32), ublock) ({pts} points)",
+              (f"{wrong[0][0]}-bit IFM of depth {wrong[0][1]} (part-kernel {wrong[0][2]}): {wrong[0][3]}, the hardware reads {wrong[0][4]} channels per block: an INT32 REDUCE_SUM gets an IFM partition sized for half its block") if wrong else "")
+    if swapped_argument_lint(repo, rep, "C15-j", ["scheduler", "api", "register_command_stream_generator"], strict=True) < 3:
+        raise AnalysisError("fewer than 3 calls with parameter-named arguments in the block configuration clients")
